@@ -106,18 +106,18 @@ def gen_section(rng):
         pay = b'line one\nhe said "x": y\n\x01tab\there~' + b'\0' * rng.randrange(0, 4)
         return hdr(b'UD', 8 + len(pay), sub=3, comp=0x2000) + pay
     if k == 'UD':
-        pay = bytes(rng.randrange(256) for _ in range(rng.randrange(1, 40)))
+        pay = bytes(rng.randrange(256) for _ in range(rng.choice([0, rng.randrange(1, 40), rng.randrange(1, 40), rng.randrange(1, 40)])))
         comp = rng.choice([0x2000, 0xE500, 0x2C00, 0x1234])
         # built-in JSON/text formats (BMC component 0x2000, subtypes 1 and 3) carry text: generated separately (UDJ/UDT)
         sub = rng.choice([0, 2, 4, 5]) if comp == 0x2000 else rng.randrange(6)
         return hdr(b'UD', 8 + len(pay), sub=sub, comp=comp, ver=rng.choice([1, 2])) + pay
     if k == 'ED':
-        pay = bytes(rng.randrange(256) for _ in range(rng.randrange(1, 30)))
+        pay = bytes(rng.randrange(256) for _ in range(rng.choice([0, rng.randrange(1, 30), rng.randrange(1, 30), rng.randrange(1, 30)])))
         return hdr(b'ED', 12 + len(pay), comp=rng.choice([0x2000, 0x9999])) + bytes([rng.choice(CREATORS), 0, 0, 0]) + pay
     sid = {'DH': b'DH', 'XX': b'XX'}.get(k) or bytes([rng.randrange(256), rng.randrange(256)])
     if sid in (b'PS', b'SS', b'EH', b'MT', b'LP', b'UD', b'ED'):
         sid = b'ZZ'
-    pay = bytes(rng.randrange(256) for _ in range(rng.randrange(1, 40)))
+    pay = bytes(rng.randrange(256) for _ in range(rng.choice([0, rng.randrange(1, 40), rng.randrange(1, 40), rng.randrange(1, 40)])))
     return hdr(sid, 8 + len(pay)) + pay
 
 
